@@ -39,6 +39,7 @@ fixed("C10","C10|resp-seq|sgip12.*|word=0/1","5a1a4cd","SGIP responses carried t
 fixed("C16","C16|add-lost|smgp.Options|nil-map","d1ea293","Options.Add on a nil map was lost (value receiver)")
 fixed("C06","C06|reported-coding|{cmpp20,cmpp30,smpp}/UCS2|req=invalid-number","f2cc1a6","split entry points reported the caller's unsupported data-coding number although the parts are UCS-2")
 fixed("C14","C14|part-undecodable|*/UCS2|surrogate-pair; */GB18030|multi-octet-char; smpp/GSM7-unpacked|escape-pair","ab5c7c5","generic splitter cut surrogate pairs, GB18030 characters and unpacked GSM-7 escape pairs in two at 134/153")
+fixed("C02","C02|decode|smgp30.Submit|field=DestTermID; C02|decode|sgip12.Submit|field=UserNumber (decode into a reused PDU value)","REUSED","smgp30.Submit / sgip12.Submit IDecode appended destinations to those of the previous PDU when the value was reused")
 fixed("C02","C02|decode|smgp30.ActiveTestResp|refused","HEAD~0","smgp30.ActiveTestResp.IDecode refused the 12-octet Active_Test_Resp of the specification")
 
 import subprocess
@@ -47,6 +48,9 @@ for f in F:
     if f['commit'].startswith('HEAD'):
         for l in head:
             if 'ActiveTestResp.IDecode refused' in l: f['commit']=l.split()[0]
+    if f['commit']=='REUSED':
+        for l in head:
+            if 'reused Submit value' in l: f['commit']=l.split()[0]
 for k in K:
     k['line']=f"KNOWN-FINDING: property={k['property']} {k['key']} — {k['what']}"
 for f in F:
